@@ -17,6 +17,7 @@ OpStep(A) == nops < MaxOps /\ A /\ nops' = nops + 1
 MCNext ==
   \/ \E t \in Txns, m \in {"w", "r"} : Step(Begin(t, m))
   \/ \E t \in Txns : Step(Arm(t))
+  \/ \E t \in Txns, s \in Stores, u \in BOOLEAN : Step(NewStoreBegin(t, s, u))
   \/ \E t \in Txns, s \in Stores, u \in BOOLEAN, ok \in BOOLEAN : Step(NewStore(t, s, u, ok))
   \/ \E t \in Txns, s \in Stores, ok \in BOOLEAN : Step(OpenStore(t, s, ok))
   \/ \E t \in Txns, s \in Stores, k \in Keys, v \in Vals, ok \in BOOLEAN :
